@@ -21,7 +21,8 @@ Transcribed from (snapshot ef0888e + fix commits):
                      (`Cfg.alertLeak`/`Cfg.hookLock` = true give the code before the repairs, for the
                      counterexample theorems)
   * http_post.go     doPost synchronously, then forward          (kind `post`)
-  * udf.go           stopUDF = udf.Abort: the reader goroutine stops reading its input edge      (kind `udf`)
+  * udf.go           stopUDF = udf.Abort: the reader goroutine stops reading its input edge; ErrAborted from the
+                     child edge only ends the FORWARDING goroutine (`fwdDead`), the node keeps running (kind `udf`)
   * kapacitor_loopback.go  Point → TaskMaster.WriteKapacitorPoint → the SAME write_points edge    (kind `loop`)
 
 Abstractions (see checks/C07.json): messages are indistinguishable points (counts, FIFO edges); a pipeline is a
@@ -60,6 +61,7 @@ structure Nd where
   inited : Bool := false    -- alert: delete hook registered (needs tm.mu in the unrepaired code)
   stopping : Bool := false  -- influx: w.stopping closed; udf: aborted; alert: events channel closed (CloseTopic)
   helperDone : Bool := false -- influx: writeBuffer.run returned; alert: bufHandler.run returned
+  fwdDead : Bool := false   -- udf: the forwarding goroutine got ErrAborted and returned; nothing reads udf.Out any more
   failed : Bool := false    -- runF is returning an error
   done : Bool := false      -- node goroutine finished (errCh written)
   deriving DecidableEq, Repr, Inhabited
@@ -106,7 +108,7 @@ udf: or the UDF was aborted). -/
 def exitOk (nd : Nd) : Bool :=
   match nd.kind with
   | .alert _ => nd.hand = 0 ∧ nd.inq = 0 ∧ nd.inClosed ∧ nd.helperDone
-  | .udf => nd.hand = 0 ∧ ((nd.inq = 0 ∧ nd.inClosed) ∨ nd.stopping)
+  | .udf => (nd.hand = 0 ∧ nd.inq = 0 ∧ nd.inClosed) ∨ nd.stopping
   | _ => nd.hand = 0 ∧ nd.inq = 0 ∧ nd.inClosed
 
 /-- runF returns an error (repaired alert node: after CloseTopic). -/
@@ -164,6 +166,7 @@ def nodeStep (env : Env) (a : NAct) (nd : Nd) (child : Option Nd) : Option NRes 
         else if env.ingestSpace then some ⟨{ nd with hand := 0 }, child, true⟩
         else none
       | _ =>
+        if nd.fwdDead then none else
         match child with
         | none => some ⟨{ nd with hand := 0 }, none, false⟩
         | some c =>
@@ -174,6 +177,11 @@ def nodeStep (env : Env) (a : NAct) (nd : Nd) (child : Option Nd) : Option NRes 
     match nd.kind, child with
     | .influx _, _ => none
     | .loop, _ => none
+    | .udf, some c =>
+      -- UDFNode: only the forwarding goroutine sees ErrAborted; it returns, the node itself keeps running until
+      -- its input ends or the UDF is aborted, and nothing reads the UDF's output any more
+      if !nd.done ∧ nd.hand = 1 ∧ !nd.failed ∧ !nd.fwdDead ∧ c.inAborted then
+        some ⟨{ nd with hand := 0, dropped := nd.dropped + 1, fwdDead := true }, child, false⟩ else none
     | _, some c =>
       if !nd.done ∧ nd.hand = 1 ∧ !nd.failed ∧ c.inAborted then some ⟨{ nd with hand := 0, dropped := nd.dropped + 1, failed := true }, child, false⟩ else none
     | _, none => none
@@ -191,7 +199,9 @@ def nodeStep (env : Env) (a : NAct) (nd : Nd) (child : Option Nd) : Option NRes 
     if nd.done then none
     else if nd.failed then
       if exitFailedOk env nd then some ⟨{ nd with done := true, inAborted := true }, child.map closeIn, false⟩ else none
-    else if exitOk nd then some ⟨{ nd with done := true }, child.map closeIn, false⟩
+    else if exitOk nd then
+      -- (an aborted UDF drops the message it still holds)
+      some ⟨{ nd with done := true, hand := 0, dropped := nd.dropped + nd.hand }, child.map closeIn, false⟩
     else none
 
 /-- Apply a node action at position `i` of the chain. Returns the new chain and whether a point was looped. -/
